@@ -156,6 +156,117 @@ static void op_bool(const Bytes &s) {
     finish(h, g);
 }
 
+// Beyond the listed properties (X02): exact hash values, c_str(substitute), views, std::string copies, literals.
+static std::string jlimbs(unsigned long long v) { Out o; put_limbs(o, v); return o.b; }
+static void op_hashv(const Bytes &s) {
+    if (!SH.take()) return;
+    Out h; begin(h, "hashv"); h.c(',').k("s").s(jbytes(s)).c(',').k("bits").i((long long)(8 * sizeof(size_t))).c(',').k("sx").i(CHAR_MIN < 0);
+    set_cur(SH.idx - 1, h.b + "}");
+    Groups g; string ss = S(s);
+    g.run("hash", "ST::hash", [&] { return jlimbs(ST::hash()(ss)); });
+    g.run("hash", "std::hash<ST::string>", [&] { return jlimbs(std::hash<string>()(ss)); });
+    g.run("hash", "ST::hash of a copy", [&] { string c = ss; return jlimbs(ST::hash()(c)); });
+    g.run("hash_i", "ST::hash_i", [&] { return jlimbs(ST::hash_i()(ss)); });
+    g.run("hash_i", "ST::hash_i of to_upper()", [&] { return jlimbs(ST::hash_i()(ss.to_upper())); });
+    finish(h, g);
+}
+template <class T> static void view_forms(Groups &g, const char *tn, const Bytes &s, size_t start, unsigned long long len, bool autolen) {
+    std::basic_string<T> w; for (unsigned char c : s) w += (T)c;
+    Exact<T> e(w.data(), w.size());
+    const ST::buffer<T> b(e.p, e.n);
+    std::string t = tn;
+    typedef typename std::make_unsigned<T>::type UT;
+    auto lst = [](const T *p, size_t n) { std::string r = "["; for (size_t i = 0; i < n; ++i) { if (i) r += ','; r += std::to_string((unsigned long)(UT)p[i]); } return r + "]"; };
+    auto rec = [&](std::basic_string_view<T> v) { return "{\"b\":" + lst(v.data(), v.size()) + ",\"off\":" + jint((long long)(v.data() - b.data())) + "}"; };
+    if (autolen) {
+        g.run("view", (t + ".view(start)").c_str(), [&] { return rec(b.view(start)); });
+        if (start == 0) g.run("view", (t + ".view()").c_str(), [&] { return rec(b.view()); });
+    } else g.run("view", (t + ".view(start,len)").c_str(), [&] { return rec(b.view(start, (size_t)len)); });
+    if (start == 0 && autolen) {
+        g.run("copy", (t + ".to_std_string()").c_str(), [&] { auto c = b.to_std_string(); return lst(c.data(), c.size()); });
+        g.run("copy", (t + " data()..data()+size()").c_str(), [&] { return lst(b.data(), b.size()); });
+        g.run("term", (t + " data()[size()]").c_str(), [&] { return jint((long long)(UT)b.data()[b.size()]); });
+        g.run("term", (t + " *end()").c_str(), [&] { return jint((long long)(UT)*b.end()); });
+    }
+}
+// contract: start <= size(), len <= size() - start (or the automatic length)
+static void op_view(const Bytes &s, size_t start, unsigned long long len, bool autolen) {
+    if (!SH.take()) return;
+    Out h; begin(h, "view"); h.c(',').k("s").s(jbytes(s)).c(',').k("start").i((long long)start).c(',').k("len").i(autolen ? -1 : (long long)len);
+    set_cur(SH.idx - 1, h.b + "}");
+    Groups g; const string ss = S(s);
+    auto lst = [](const char *p, size_t n) { return jbytes(p, n); };
+    auto rec = [&](std::string_view v) { return "{\"b\":" + lst(v.data(), v.size()) + ",\"off\":" + jint((long long)(v.data() - ss.c_str())) + "}"; };
+    if (autolen) {
+        g.run("view", "string.view(start)", [&] { return rec(ss.view(start)); });
+        if (start == 0) g.run("view", "string.view()", [&] { return rec(ss.view()); });
+    } else g.run("view", "string.view(start,len)", [&] { return rec(ss.view(start, (size_t)len)); });
+    if (start == 0 && autolen) {
+        g.run("copy", "string.to_std_string()", [&] { auto c = ss.to_std_string(); return lst(c.data(), c.size()); });
+        g.run("copy", "string.to_std_string(true,false)", [&] { auto c = ss.to_std_string(true, false); return lst(c.data(), c.size()); });
+        g.run("copy", "string.to_std_string(std::string&)", [&] { std::string c = "previous contents"; ss.to_std_string(c); return lst(c.data(), c.size()); });
+        g.run("copy", "string.to_utf8()", [&] { auto c = ss.to_utf8(); return lst(c.data(), c.size()); });
+        g.run("copy", "string c_str()..+size()", [&] { return lst(ss.c_str(), ss.size()); });
+#ifdef ST_HAVE_CXX20_CHAR8_TYPES
+        g.run("copy", "string u8_str()..+size()", [&] { return lst((const char *)ss.u8_str(), ss.size()); });
+        g.run("copy", "string.to_std_u8string()", [&] { std::u8string c; ss.to_std_string(c); return lst((const char *)c.data(), c.size()); });
+#endif
+        g.run("term", "string c_str()[size()]", [&] { return jint((unsigned char)ss.c_str()[ss.size()]); });
+    }
+    view_forms<char>(g, "char_buffer", s, start, len, autolen);
+    view_forms<char16_t>(g, "utf16_buffer", s, start, len, autolen);
+    view_forms<char32_t>(g, "utf32_buffer", s, start, len, autolen);
+    view_forms<wchar_t>(g, "wchar_buffer", s, start, len, autolen);
+    finish(h, g);
+}
+template <class T> static void cstr_forms(Groups &g, const char *tn, const Bytes &s, const Bytes &sub) {
+    std::basic_string<T> w, ws; for (unsigned char c : s) w += (T)c; for (unsigned char c : sub) ws += (T)c;
+    Exact<T> e(w.data(), w.size()); Exact<T> es(ws.c_str(), ws.size() + 1);
+    const ST::buffer<T> b(e.p, e.n);
+    std::string t = tn;
+    typedef typename std::make_unsigned<T>::type UT;
+    auto zl = [](const T *p) { std::string r = "["; for (size_t i = 0; p[i]; ++i) { if (i) r += ','; r += std::to_string((unsigned long)(UT)p[i]); } return r + "]"; };
+    g.run("cstr", (t + ".c_str(sub)").c_str(), [&] { const T *p = b.c_str(es.p); return "{\"sub\":" + jint(p == es.p) + ",\"own\":" + jint(p == b.data()) + ",\"z\":" + zl(p) + "}"; });
+    g.run("cstr0", (t + ".c_str()").c_str(), [&] { const T *p = b.c_str(); return "{\"sub\":0,\"own\":" + jint(p == b.data()) + ",\"z\":" + zl(p) + "}"; });
+}
+// NUL-free subject (the result is read as a C string)
+static void op_cstr(const Bytes &s, const Bytes &sub) {
+    if (!SH.take()) return;
+    Out h; begin(h, "cstr"); h.c(',').k("s").s(jbytes(s)).c(',').k("sub").s(jbytes(sub));
+    set_cur(SH.idx - 1, h.b + "}");
+    Groups g; const string ss = S(s); Z zs(sub);
+    auto zl = [](const char *p) { return jbytes(p, strlen(p)); };
+    g.run("cstr", "string.c_str(sub)", [&] { const char *p = ss.c_str(zs.p()); return "{\"sub\":" + jint(p == zs.p()) + ",\"own\":" + jint(p == ss.c_str()) + ",\"z\":" + zl(p) + "}"; });
+    g.run("cstr0", "string.c_str()", [&] { const char *p = ss.c_str(); return "{\"sub\":0,\"own\":" + jint(p == ss.begin()) + ",\"z\":" + zl(p) + "}"; });
+    cstr_forms<char>(g, "char_buffer", s, sub);
+    cstr_forms<char16_t>(g, "utf16_buffer", s, sub);
+    cstr_forms<char32_t>(g, "utf32_buffer", s, sub);
+    cstr_forms<wchar_t>(g, "wchar_buffer", s, sub);
+    finish(h, g);
+}
+// user-defined literals: the text is known at compile time, so a fixed catalogue; "src" is the literal's content
+#define LIT_EVENT(ID, BYTES, EXPR_ST, EXPR_BUF)                                                                        \
+    if (SH.take()) { Bytes src BYTES; Out h; begin(h, "literal"); h.c(',').k("id").q(ID).c(',').k("s").s(jbytes(src));  \
+        set_cur(SH.idx - 1, h.b + "}"); Groups g;                                                                     \
+        g.run("lit", "_st", [&] { string r = EXPR_ST; return jstr(r); });                                             \
+        g.run("lit", "_stbuf", [&] { auto r = EXPR_BUF; std::string q = "["; for (size_t i = 0; i < r.size(); ++i) { if (i) q += ','; q += std::to_string((unsigned long)r.data()[i]); } return q + "]"; }); \
+        finish(h, g); }
+static void gen_literals() {
+    using namespace ST::literals;
+    LIT_EVENT("empty", (""), ""_st, ""_stbuf)
+    LIT_EVENT("ascii", ("hello"), "hello"_st, "hello"_stbuf)
+    LIT_EVENT("nul", ("a\0b", 3), "a\0b"_st, "a\0b"_stbuf)
+    LIT_EVENT("sso15", ("123456789012345"), "123456789012345"_st, "123456789012345"_stbuf)
+    LIT_EVENT("sso16", ("1234567890123456"), "1234567890123456"_st, "1234567890123456"_stbuf)
+    LIT_EVENT("long40", ("1234567890123456789012345678901234567890"), "1234567890123456789012345678901234567890"_st, "1234567890123456789012345678901234567890"_stbuf)
+    LIT_EVENT("ascii16", ("hello"), u"hello"_st, "hello"_stbuf)
+    LIT_EVENT("ascii32", ("hello"), U"hello"_st, "hello"_stbuf)
+    LIT_EVENT("asciiw", ("hello"), L"hello"_st, "hello"_stbuf)
+    LIT_EVENT("nul16", ("a\0b", 3), u"a\0b"_st, "a\0b"_stbuf)
+    LIT_EVENT("nul32", ("a\0b", 3), U"a\0b"_st, "a\0b"_stbuf)
+    LIT_EVENT("long16", ("1234567890123456789012345678901234567890"), u"1234567890123456789012345678901234567890"_st, "1234567890123456789012345678901234567890"_stbuf)
+}
+
 // ------------------------------------------------------------------ C06 ---
 template <class T> static std::basic_string<T> widen(const Bytes &b) {
     std::basic_string<T> r; for (unsigned char c : b) r += (T)c; return r;
@@ -620,6 +731,20 @@ int main(int argc, char **argv) {
         for (const char *t : {"", "true", "TRUE", "tRuE", "false", "False", "falsey", "truex", " true", "true ", "0", "1", "-1", "00", "0x0", "0x10", "08", "yes", "no", "2147483648", "4294967296", "t", "f", "1e0", " 7", "\t0"}) op_bool(t);
         op_bool(Bytes("true\0x", 6)); op_bool(Bytes("\0true", 5)); op_bool(Bytes("1\0", 2));
         for (long long k = 0; k < count; ++k) { Bytes s = rand_bytes(rng, {116, 114, 117, 101, 102, 97, 108, 115, 84, 82, 48, 49, 32, 120, 45}, 6); op_bool(s); op_access(s, rng.below(8)); }
+    } else if (gen == "x02") {
+        size_t L = ST_MAX_SSO_LENGTH;
+        std::vector<Bytes> subj = strs;
+        for (size_t n : {L - 1, L, L + 1, (size_t)40, (size_t)300}) subj.push_back(size_class(n, 5));
+        for (int c = 0; c < 256; ++c) { subj.push_back(Bytes(1, (char)c)); subj.push_back(Bytes("k") + (char)c + "Z"); }
+        for (auto &s : subj) op_hashv(s);
+        for (auto &s : subj) {
+            if (s.size() > 3 && s.size() < 40 && s.size() != L) continue;
+            op_view(s, 0, 0, true);
+            for (size_t st = 0; st <= s.size(); ++st) { op_view(s, st, 0, true); for (size_t n = 0; n <= s.size() - st; ++n) if (n < 3 || n + 2 > s.size() - st) op_view(s, st, n, false); }
+        }
+        for (auto &s : subj) if (nulfree(s) && (s.size() <= 3 || s.size() >= L - 1) && s.size() <= 40) for (const char *sub : {"", "(null)", "x"}) op_cstr(s, sub);
+        gen_literals();
+        for (long long k = 0; k < count; ++k) { std::vector<long long> full; for (int c = 0; c < 256; ++c) full.push_back(c); op_hashv(rand_bytes(rng, full, 60)); }
     } else if (gen == "c07") {
         for (auto &hs : strs) for (auto &n : needles) for (int ci = 0; ci < 2; ++ci) {
             for (unsigned long long st = 0; st <= hs.size() + 1; ++st) op_find(hs, n, st, ci);
